@@ -161,6 +161,18 @@ class Ob(object):
         if not isinstance(obj, I.SObj):
             return self._add(name, 'wf', 'failed', {'cond': 'result is not a TT object: %r' % (obj,)})
         self.prove_all(name, H.check_wf(self.ex, obj), 'wf')
+        # objects never share their `cores` list (or private field lists) with an operand: otherwise a later in-place
+        # update of one object (set_core, reduce_dims, sweeps) silently invalidates the other (history half of C05 / C06)
+        shared = []
+        if id(obj) not in self.ex.arg_objs:
+            for k, v in obj.attrs.items():
+                if isinstance(v, list) and id(v) in self.ex.arg_lists:
+                    shared.append('%s is %s' % (k, self.ex.arg_lists[id(v)]))
+        if shared:
+            r, m = self.ex.pc.model()
+            self._add(name + '.own_lists', 'frame', 'failed', {'model': m, 'cond': 'result shares a list with an operand: %s' % shared})
+        else:
+            self._add(name + '.own_lists', 'frame', 'discharged')
 
     def frame(self, name='frame', allowed=()):
         bad = [w for w in self.ex.writes if not any(w[1].startswith(a) for a in allowed)]
